@@ -181,6 +181,17 @@ func sweepProgram(c *sim.RunCtx, src []byte, wellBehaved bool, gaps []int, nontr
 			continue
 		}
 		k := N % nsch
+		if N > c11Big {
+			// a budget beyond the runaway threshold is only meaningful for a
+			// configuration under which the program ends by itself (a history that
+			// goes on after an error may loop where the plain run does not)
+			for j := 0; j < nsch && cfgRunaway[k]; j++ {
+				k = (k + 1) % nsch
+			}
+			if cfgRunaway[k] {
+				continue
+			}
+		}
 		ex := runPSHistory(newInterp(N), src, schs[k], cuts[k], sim.Fault{}, nil, goOn[k])
 		st.Inc("budgeted_runs")
 		st.Inc("fired_budget_interruption")
